@@ -232,3 +232,48 @@ add('LdmThumbT2 LdmdbT1 StmT2 StmdbT1', {'wback': 'b21', 'registers': 'f15_0', '
 add('TbbTbhT1', {'is_tbh': 'b4', 'm': 'f3_0', 'n': 'f19_16', '_noit': True}, [T_RN, T_RM])
 add('LdrexT1', {'imm32': '(bits W 7 0 * 4)', 't': 'f15_12', 'n': 'f19_16'}, [T_RN, RD])
 add('StrexT1', {'imm32': '(bits W 7 0 * 4)', 't': 'f15_12', 'd': 'f11_8', 'n': 'f19_16'}, [T_RN, RD, T_RD])
+
+
+# ------------------------------------------------------------------ privileged block transfers (B9.3.5, B9.3.6, B9.3.13, B9.3.16, B9.3.17)
+WH = '(if bit W 24 =? bit W 23 then 1 else 0)'
+add('StmUserRegistersA1', {'increment': 'b23', 'word_higher': WH, 'registers': 'f15_0', 'n': 'f19_16', '_pre': 'reglist'}, [RN])
+add('LdmUserRegistersA1', {'increment': 'b23', 'word_higher': WH, 'registers': 'f14_0', 'n': 'f19_16', '_pre': 'reglist', '_zero': [15]}, [RN])
+# the emulator's list for this class carries bit 15 (fixed to 1 by the encoding: the PC is always loaded); pinned by its tests
+add('LdmExceptionReturnA1', {'increment': 'b23', 'word_higher': WH, 'wback': 'b21', 'registers': 'f15_0', 'n': 'f19_16', '_pre': 'reglist'}, [RN])
+add('SrsArmA1', {'increment': 'b23', 'word_higher': WH, 'wback': 'b21', 'mode': 'f4_0'}, [])
+add('RfeA1', {'increment': 'b23', 'word_higher': WH, 'wback': 'b21', 'n': 'f19_16'}, [RN])
+add('SrsThumbT1', {'increment': '0', 'word_higher': '0', 'wback': 'b21', 'mode': 'f4_0', '_noit': True}, [])
+add('SrsThumbT2', {'increment': '1', 'word_higher': '0', 'wback': 'b21', 'mode': 'f4_0', '_noit': True}, [])
+add('RfeT1', {'increment': '0', 'word_higher': '0', 'wback': 'b21', 'n': 'f19_16', '_noit': True}, [T_RN])
+add('RfeT2', {'increment': '1', 'word_higher': '0', 'wback': 'b21', 'n': 'f19_16', '_noit': True}, [T_RN])
+
+# ------------------------------------------------------------------ SP / PC where they are valid operands
+# UNPREDICTABLE operand combinations leave the behaviour open, so nothing is expected of them; what is checked is the converse:
+# operand values that ARE architecturally valid must be accepted.  VALID[class] = list of (register field, value) that the
+# encoding allows (the other register fields stay inside r0-r12).
+VALID = {}
+
+
+def valid(names, combos):
+    for n in names.split():
+        assert n in TABLE, n
+        VALID.setdefault(n, []).extend(combos)
+
+
+ARM_SP_OK = ('MulA1 MlaA1 MlsA1 UmullA1 UmlalA1 SmullA1 SmlalA1 UmaalA1 SmlaA1 SmlalxyA1 SmlawA1 SmulA1 SmulwA1 SmladA1 SmlsdA1 SmlaldA1 '
+             'SmlsldA1 SmuadA1 SmusdA1 SmmlaA1 SmmlsA1 SmmulA1 SdivA1 UdivA1 Usad8A1 Usada8A1 ClzA1 RbitA1 RevA1 Rev16A1 RevshA1 '
+             'SxtbA1 Sxtb16A1 SxthA1 UxtbA1 Uxtb16A1 UxthA1 SxtabA1 Sxtab16A1 SxtahA1 UxtabA1 Uxtab16A1 UxtahA1 SsatA1 UsatA1 '
+             'Ssat16A1 Usat16A1 PkhA1 SbfxA1 UbfxA1 BfcA1 BfiA1 ') + ops(PAR, 'A1')
+for _n in ARM_SP_OK.split():
+    valid(_n, [(f, 13) for f in TABLE[_n]['_regs']])       # r13 is an ordinary register in ARM multiply/media encodings
+DP_A1 = ('AdcImmediateA1 AddImmediateArmA1 RsbImmediateA1 RscImmediateA1 SbcImmediateA1 SubImmediateArmA1 AndImmediateA1 BicImmediateA1 '
+         'EorImmediateA1 OrrImmediateA1 AdcRegisterA1 AndRegisterA1 BicRegisterA1 EorRegisterA1 OrrRegisterA1 RsbRegisterA1 RscRegisterA1 '
+         'SbcRegisterA1 CmnImmediateA1 CmpImmediateA1 TeqImmediateA1 TstImmediateA1 CmnRegisterA1 CmpRegisterA1 TeqRegisterA1 TstRegisterA1')
+for _n in DP_A1.split():
+    valid(_n, [(RN, 15)])                                   # ARM data processing may read the PC as Rn
+valid('MovRegisterThumbT3', [((11, 8), 13), ((3, 0), 13)])  # MOV.W (S = 0): one of Rd / Rm may be the SP
+valid('CmpImmediateT2 CmpRegisterT3 CmnImmediateT1', [((19, 16), 13)])
+valid('LdrImmediateThumbT3 StrImmediateThumbT3 LdrbImmediateThumbT2 StrbImmediateThumbT2 LdrhImmediateThumbT2 StrhImmediateThumbT2 '
+      'LdrRegisterThumbT2 StrRegisterT2', [((19, 16), 13)])
+valid('LdrImmediateThumbT3 StrImmediateThumbT3', [((15, 12), 13)])
+valid('LdrImmediateThumbT3', [((15, 12), 15)])
